@@ -916,13 +916,13 @@ func (m *Monitors) checkSchedules(prev *vh.Snapshot, bi *BatchInfo, next *vh.Sna
 		a, b := *s0, *s1
 		a.Last, a.Next, b.Last, b.Next = nil, 0, nil, 0
 		if a.String() != b.String() {
-			m.violate("C10", "row:schedule-fields-changed", fmt.Sprintf("schedule fields changed: %s -> %s", s0, s1))
+			m.violate("C10,C02", "row:schedule-fields-changed", fmt.Sprintf("schedule fields changed: %s -> %s", s0, s1))
 		}
 		m.hit("schedule.fired")
 		m.region("schedule-fired")
 		occ := s0.Next
 		if s1.Last == nil || *s1.Last != occ {
-			m.violate("C10", "row:schedule-last-run", fmt.Sprintf("schedule advanced from occurrence %d but lastRunTime is %s", occ, s1))
+			m.violate("C10,C02", "row:schedule-last-run", fmt.Sprintf("schedule advanced from occurrence %d but lastRunTime is %s", occ, s1))
 		}
 		want, known, err := CronNext(s0.Cron, occ)
 		if err == nil {
@@ -932,16 +932,16 @@ func (m *Monitors) checkSchedules(prev *vh.Snapshot, bi *BatchInfo, next *vh.Sna
 				m.hit("schedule.next-trusting-library")
 			}
 			if s1.Next != want {
-				m.violate("C10", "row:schedule-next-run", fmt.Sprintf("schedule %s (cron %q) advanced from %d to %d, the next occurrence is %d", id, s0.Cron, occ, s1.Next, want))
+				m.violate("C10,C02", "row:schedule-next-run", fmt.Sprintf("schedule %s (cron %q) advanced from %d to %d, the next occurrence is %d", id, s0.Cron, occ, s1.Next, want))
 			}
 		}
 		if t < occ {
-			m.violate("C10", "row:schedule-fired-early", fmt.Sprintf("schedule %s fired occurrence %d at tick %d", id, occ, t))
+			m.violate("C10,C02", "row:schedule-fired-early", fmt.Sprintf("schedule %s fired occurrence %d at tick %d", id, occ, t))
 		}
 		key := fmt.Sprintf("%s#%d@%d", id, s0.SortId, occ)
 		m.fired[key]++
 		if m.fired[key] > 1 {
-			m.violate("C10", "row:occurrence-fired-twice", fmt.Sprintf("schedule %s fired occurrence %d twice", id, occ))
+			m.violate("C10,C02", "row:occurrence-fired-twice", fmt.Sprintf("schedule %s fired occurrence %d twice", id, occ))
 		}
 		pid, ok := ExpandTemplate(s0.PromiseId, id, occ)
 		if !ok {
